@@ -1316,6 +1316,8 @@ MD_KEYS = ["a", "A", "b"]
 MD_VALS = ["1", "2"]
 MD_INITS = [None, ("p", (("a", "1"), ("b", "2"), ("a", "2"))), ("d", {"a": "1", "A": "2"}),
             ("d", {"a": ["1", "2"], "b": [], "A": ("2",)}), ("m", {"b": ["2", "1"], "a": ["1"]}), ("m", {"a": [], "b": ["1"]})]
+MD_CTOR_EXTRA = [("d", {"k": []}), ("d", {"k": (), "a": "1"}), ("d", {"a": ["1"], "k": set(), "b": ("2", "3")}), ("d", {"k": [], "l": ()}),
+                 ("p", ()), ("d", {})]
 MD_ARGS = [("p", (("a", "1"), ("a", "2"), ("b", "1"))), ("d", {"a": "2", "b": ["1", "2"]}), ("d", {"b": []}),
            ("m", {"A": ["2"], "a": []}), ("d", {"a": ("1", "2"), "b": "3"}), ("d", {"b": {"1"}, "a": (), "A": ["2"]})]
 
@@ -1568,6 +1570,21 @@ def run_md(chk, ds, init, ops, oracle=True, cls=None) -> str:
     obs = [md_obs_c(d, PROBE)]
     ok = oracle
     immutable = cls is not ds.MultiDict
+    if ok:
+        # the constructor: a mapping contributes one pair per element of a list / tuple / set value (none for an empty one),
+        # pairs are grouped by key, another MultiDict is copied row by row
+        want = None
+        if init is None:
+            want = {}
+        elif init[0] in ("p", "d"):
+            want = {}
+            for k, v in _flat(init):
+                want.setdefault(k, []).append(v)
+        raw0 = _md_raw(d)
+        if want is not None and (raw0 != want or list(raw0) != list(want)):
+            chk.fail("multidict-model", f"{cls.__name__} constructed from {init[1] if init else None!r} holds {raw0!r}, the multimap of its pairs is {want!r}",
+                     {"kind": "imd" if immutable else "md", "init": init, "ops": []})
+            ok = False
     if ok:
         bad = _md_laws(chk, d, _md_raw(d), {"kind": "md", "init": init, "ops": []})
         if bad:
@@ -1836,6 +1853,56 @@ def protocol_checks(chk, ds, rng, n):
     if [x.filename for x in fm.getlist("f")] != ["a.txt", "b.txt"] or fm["f"].filename != "a.txt":
         chk.fail("protocol-multidict", "FileMultiDict.add_file", {"kind": "protocol"})
     chk.count("protocol(copy/pickle/deepcopy/hash; harness only)", n)
+
+
+def request_headers_view(chk, rng, n):
+    """the environ-backed view as the request wrapper hands it out: Request.headers must follow every later change of
+    request.environ (keys added, rewritten, deleted)"""
+    from werkzeug.test import create_environ
+    from werkzeug.wrappers import Request
+
+    def want(env):
+        out = []
+        for k, v in env.items():
+            if k.startswith("HTTP_") and k not in ("HTTP_CONTENT_TYPE", "HTTP_CONTENT_LENGTH"):
+                out.append((k[5:].replace("_", "-").title(), v))
+            elif k in ("CONTENT_TYPE", "CONTENT_LENGTH") and v:
+                out.append((k.replace("_", "-").title(), v))
+        return out
+    keys = ["HTTP_ACCEPT", "HTTP_X_LATE", "HTTP_X_FORWARDED_FOR", "CONTENT_TYPE", "CONTENT_LENGTH", "HTTP_HOST", "HTTP_CONTENT_TYPE", "HTTP_COOKIE"]
+    for i in range(n):
+        env = create_environ("/p", "http://example.org/", headers={"Accept": "text/html", "X-Forwarded-For": "10.0.0.1"},
+                             method=rng.choice(["GET", "POST"]))
+        req = Request(env, shallow=rng.random() < 0.5)
+        hist = []
+        for step in range(rng.randint(1, 6)):
+            if step:
+                k = rng.choice(keys)
+                if k in req.environ and rng.random() < 0.4:
+                    del req.environ[k]
+                    hist.append(["del", k])
+                else:
+                    v = rng.choice(["1", "text/plain", "", "a=b", "10.0.0.2"])
+                    req.environ[k] = v
+                    hist.append(["set", k, v])
+            w = want(req.environ)
+            got = list(req.headers)
+            bad = None
+            if got != w or len(req.headers) != len(w):
+                bad = f"request.headers lists {got!r}, request.environ gives {w!r}"
+            else:
+                for name in ("Accept", "X-Late", "X-Forwarded-For", "Content-Type", "Content-Length", "Host", "Cookie"):
+                    k = name.upper().replace("-", "_")
+                    ek = k if k in ("CONTENT_TYPE", "CONTENT_LENGTH") else "HTTP_" + k
+                    have = req.headers.get(name)
+                    if have != req.environ.get(ek) or (name in req.headers) != (ek in req.environ):
+                        bad = f"request.headers.get({name!r}) = {have!r}, request.environ[{ek!r}] = {req.environ.get(ek)!r}"
+                        break
+            if bad:
+                chk.fail("environ-view", f"after {hist!r}: {bad}", {"kind": "request-headers", "history": hist})
+                break
+        chk.case(("request-headers", i, repr(hist)), nontrivial=True)
+    chk.count("Request.headers after environ edits", n)
 
 
 def mapping_entry_points(chk, ds, R):
@@ -2126,6 +2193,18 @@ def run(chk: Check) -> None:
                 env[k] = rng.choice(["2", "", "x"])
             R.eh(env, [])
 
+    for init in MD_CTOR_EXTRA:          # constructor inputs with empty list / tuple / set values
+        R.md(init, [])
+        R.md(init, [], immutable=True)
+        for o in md_alphabet(False):
+            R.md(init, [o])
+        c = ds.MultiDict(make_arg(init, ds))
+        u = ds.MultiDict()
+        u.update(make_arg(init, ds))
+        if _md_raw(c) != _md_raw(u) or (ds.ImmutableMultiDict(make_arg(init, ds)) == ds.ImmutableMultiDict()) != (not _flat(init)):
+            chk.fail("multidict-model", f"constructor and update() disagree on {init[1]!r}: {_md_raw(c)!r} vs {_md_raw(u)!r}",
+                     {"kind": "md", "init": init, "ops": []})
+    request_headers_view(chk, rng, 60 if quick else 1500)
     protocol_checks(chk, ds, rng, 150 if quick else 3000)
     mapping_entry_points(chk, ds, R)
 
